@@ -577,6 +577,18 @@ func (s *syncer) resolveBisyncCheckpointNameWithClient(cli client.Redis, ids []s
 		return "", err
 	}
 	if seed != nil {
+		// StartPoint resumes from the root checkpoint when it is newer than the mode-specific
+		// state (a full resync after the last replayed unit, see bisyncRootCheckpointNewer);
+		// the new namespace must not start behind that position.
+		rootSeed, err := s.loadBisyncRootSeed(cli, cpName, ids)
+		if err != nil {
+			return "", err
+		}
+		if rootSeed != nil && rootSeed.Offset > seed.Offset {
+			seed = rootSeed
+		}
+	}
+	if seed != nil {
 		// Once the checkpoint hash is repointed, the new namespace must be readable
 		// through the current source run IDs instead of the historical one that
 		// produced the old authoritative state.
@@ -670,6 +682,23 @@ func (s *syncer) loadBisyncMigrationSeed(cli client.Redis, checkpointName string
 	}
 
 	return nil, fmt.Errorf("no bisync authoritative migration seed found: checkpoint(%s), mode(%s), ids(%v)", checkpointName, currentMode, ids)
+}
+
+// loadBisyncRootSeed returns the root checkpoint of a namespace as a migration seed, or nil
+// when it holds no position for the given run IDs.
+func (s *syncer) loadBisyncRootSeed(cli client.Redis, checkpointName string, ids []string) (*checkpoint.BisyncNamespaceSeed, error) {
+	cpi, _, err := checkpoint.GetCheckpoint(cli, checkpointName, ids)
+	if err != nil {
+		return nil, err
+	}
+	// GetCheckpoint scans the databases; the namespace is maintained in database 0
+	if err := redis.SelectDB(cli, 0); err != nil {
+		return nil, err
+	}
+	if cpi == nil || cpi.Offset < 0 || !checkpoint.MatchBisyncRunID(cpi.RunId, ids) {
+		return nil, nil
+	}
+	return checkpoint.NewBisyncNamespaceSeedFromCheckpoint(cpi, 0)
 }
 
 // seedBisyncNamespace writes the minimum recovery state required for a fresh
